@@ -55,10 +55,10 @@ PROPS = {
  },
  "C06": {
   "module": "Zog.Props.C06",
-  "theorems": [P + "C06." + t for t in ["dyn_facts_ok", "long_keys_never_panic", "empty_object_never_panics", "struct_input_never_panics", "any_segment_never_panics", "any_map_never_panics", "any_value_never_panics"]],
+  "theorems": [P + "C06." + t for t in ["dyn_facts_ok", "long_keys_never_panic", "empty_object_never_panics", "struct_input_never_panics", "any_segment_never_panics", "any_map_never_panics", "any_value_never_panics", "any_preprocess_result_never_panics", "promoted_field_never_panics", "any_body_never_panics"]],
   "streams": [st("dyn", 1500, 100000), st("http", 800, 12000)],
   "trusted_base": ["PARTIAL: proved for the modelled glue (key buffer, nil provider, unexported fields, empty path segments, named map types, every dynamic kind) over all inputs; panics inside reflect / the standard library / user callbacks / stack exhaustion cannot be exhibited by the model and are covered only by the S-dyn stream (real code under recover)",
-                   "regenerated (go/ast + source shape): Gen.dynFacts — presence of the five guards in struct.go, internals/DataProviders.go, internals/PathBuilder.go",
+                   "regenerated (go/ast + source shape): Gen.dynFacts — presence of the eight guards in struct.go, internals/DataProviders.go, internals/PathBuilder.go, internals/utils.go (UnwrapPtr), parsers/zjson (behavioural probes of the working tree)",
                    "modelled, not verified: lean/Zog/Dyn.lean"],
   "assumptions": ["schema and destination match each other (a mismatch panics by design)", "acyclic, finite inputs"],
  },
